@@ -1900,16 +1900,19 @@ func (w *fWalker) wrapperCall(e ast.Expr, env map[string]*fType) (string, *ast.F
 	return l, lit
 }
 
-// globals: the package-level variables and functions of a package (what a statement can reach shared state through
-// without naming a receiver).
+// globals: the package-level variables of a package and those of its package-level functions through which a statement can
+// reach shared state (or leave the request's goroutine) without naming a receiver: a function that mentions a package-level
+// variable, starts a goroutine, or calls such a function.  A helper that works on its arguments alone (say, one that reads the
+// request's body into memory) is not among them.
 func (p *fPkg) globals() map[string]bool {
-	out := map[string]bool{}
+	vars := map[string]bool{}
+	funcs := map[string]*ast.FuncDecl{}
 	for _, f := range p.files {
 		for _, decl := range f.Decls {
 			switch d := decl.(type) {
 			case *ast.FuncDecl:
 				if d.Recv == nil && d.Name.Name != "_" {
-					out[d.Name.Name] = true
+					funcs[d.Name.Name] = d
 				}
 			case *ast.GenDecl:
 				if d.Tok != token.VAR {
@@ -1919,11 +1922,52 @@ func (p *fPkg) globals() map[string]bool {
 					if vs, ok := sp.(*ast.ValueSpec); ok {
 						for _, n := range vs.Names {
 							if n.Name != "_" {
-								out[n.Name] = true
+								vars[n.Name] = true
 							}
 						}
 					}
 				}
+			}
+		}
+	}
+	out := map[string]bool{}
+	for v := range vars {
+		out[v] = true
+	}
+	// a function's own parameters and locals may shadow a package-level name: that only makes the answer more cautious
+	reaches := func(fd *ast.FuncDecl) bool {
+		if fd.Body == nil {
+			return true // no body to look at (assembly, linkname): assume the worst
+		}
+		found := false
+		ast.Inspect(fd.Body, func(n ast.Node) bool {
+			if found || n == nil {
+				return false
+			}
+			switch x := n.(type) {
+			case *ast.GoStmt:
+				found = true
+				return false
+			case *ast.SelectorExpr:
+				if id, ok := x.X.(*ast.Ident); ok && out[id.Name] {
+					found = true
+				}
+				return !found
+			case *ast.Ident:
+				if out[x.Name] {
+					found = true
+				}
+			}
+			return true
+		})
+		return found
+	}
+	for changed := true; changed; {
+		changed = false
+		for name, fd := range funcs {
+			if !out[name] && reaches(fd) {
+				out[name] = true
+				changed = true
 			}
 		}
 	}
